@@ -608,11 +608,11 @@ def run(rep, program: Program, tier: str) -> None:
         "arrays are modelled element-wise as commutative scalars (exact for these identities)",
         "floating-point stability and the crossing property of the initial search are not decided",
     ]
-    rule_r1(rep, program)
-    rule_r2(rep, program)
-    rule_r3(rep, program)
-    rule_r4(rep, program)
+    rep.isolate(rule_r1, rep, program)
+    rep.isolate(rule_r2, rep, program)
+    rep.isolate(rule_r3, rep, program)
+    rep.isolate(rule_r4, rep, program)
     # the momenta are refreshed *under the new metric*: metric-dependent cache entries invalidated first (shared with C09-R10)
     from . import c09
 
-    c09.rule_r10(rep, program, prop=PROP, rule="R5")
+    rep.isolate(c09.rule_r10, rep, program, prop=PROP, rule="R5")
